@@ -117,7 +117,13 @@ static void check_damaged (const char *kind, size_t at, int val) {
   char fp[96];
   if (out_io.len == payload.len && (payload.len == 0 || memcmp (out_io.p, payload.p, payload.len) == 0)) {
     n_acc_equiv++;
-    snprintf (fp, sizeof fp, "accepted-equivalent:%s:%c", kind, !strcmp (kind, "subst") && at < stream.len ? pos_class[at] : '-');
+    /* the class of the stream position that was changed: a substituted or deleted byte, the byte an insertion precedes, either byte of a swap */
+    char pc = '-';
+    if ((!strcmp (kind, "subst") || !strcmp (kind, "delete") || !strcmp (kind, "insert") || !strcmp (kind, "swap")) && at < stream.len) {
+      pc = pos_class[at];
+      if (!strcmp (kind, "swap") && at + 1 < stream.len && pos_class[at + 1] == 'I') pc = 'I';
+    }
+    snprintf (fp, sizeof fp, "accepted-equivalent:%s:%c", kind, pc);
   } else {
     n_acc_diff++;
     if (out_io.len == payload.len && payload_hash (out_io.p, out_io.len) == payload_hash (payload.p, payload.len))
